@@ -20,7 +20,8 @@ RULE = ('configurations: every signed format (1,iw,fw) with iw+fw <= 8 in same-f
         'alternating bits) + random; wide formats (1,15,16) (1,7,24) (1,31,32) (1,0,15) (1,0,31) (1,16,16) (1,3,60) on boundary x boundary + '
         'random; mixed-format multiplier configurations (af, bf, rf) with low = fa+fb-fr >= 0: all triples of formats up to 3 bits '
         'exhaustively, sampled triples of larger formats.  evaluations = block outputs judged.  Non-trivial: both operands non-zero; '
-        'distinct by content (configuration, x, y)')
+        'distinct by content (configuration, x, y); in the thorough tier only the cases whose content hash is 0 mod 16 are registered, so '
+        'distinct_nontrivial is a lower bound there (keeps the merged set small)')
 SHARDS = {'quick': 1, 'thorough': 16}
 TIMEOUT = {'quick': 600, 'thorough': 3000}
 MIN_NONTRIVIAL = {'quick': 20000, 'thorough': 300000}
@@ -205,6 +206,7 @@ class Stats(dict):
         return 0
 
 
+NT_SUBSAMPLE = 16    # thorough tier: only cases with content hash = 0 mod 16 are registered as distinct non-trivial (lower bound)
 PER_MECHANISM = 3
 
 
@@ -271,7 +273,9 @@ def run_check(run, tier, seed, shard):
             run.ev(n)
             npairs += 1
             if x and y:
-                run.nt(hash((af, bf, rf, x, y)))
+                h = hash((af, bf, rf, x, y))
+                if tier == 'quick' or h % NT_SUBSAMPLE == 0:
+                    run.nt(h)
             if viols:
                 report(run, dict(kind='step', af=af, bf=bf, rf=rf, x=x, y=y), viols)
                 if run.too_many:
